@@ -168,13 +168,11 @@ def plan_C01(seed, run, engine):
         ops.append(dict(op="solve", start="buffers", knobs=k2,
                         faults=G.gen_faults(rng, solver, fault_rate), storage=prob["storage"]))
     plan = _mk("C01", seed, run, engine, prob, ops, rng)
-    if str(plan["storage"]).startswith("csc") and rng.random() < 0.2:
-        # a CSC matrix in non-canonical format (duplicate entries): the certificate of a run
-        # that claims convergence does not depend on how the matrix was stored
-        for op in plan["ops"]:
-            if str(op.get("storage", "")).startswith("csc"):
-                op["storage"] = "csc_dup"
-        plan["storage"] = "csc_dup"
+    # (round 3 stored a fifth of the CSC designs in non-canonical format - duplicate entries,
+    # storage "csc_dup" - to reach a seeded change; withdrawn in round 6: the unchanged tree's
+    # block solvers square the pieces of a split entry separately, so the format is outside what
+    # the library supports and outside the storage list of the properties - DESIGN 8, item 29)
+    rng.random()          # keeps the stream aligned with the plans of earlier evidence
     return plan
 
 
